@@ -1,6 +1,8 @@
 package doif
 
 import (
+	insaneJSON "github.com/ozontech/insane-json"
+
 	vf "github.com/ozontech/file.d/zzverif"
 )
 
@@ -176,4 +178,287 @@ func VerifH_C14_logical() {
 	}
 	vf.Assert(got == want, "logical-formula")
 	vf.Reach("evaluated")
+}
+
+// C14.H4: length / integer / type predicates on the real JSON tree against reference values
+// known by construction of the document.
+func VerifH_C14_lenType() {
+	root := insaneJSON.Spawn()
+	defer insaneJSON.Release(root)
+	shape := vf.Choose("shape", 7)
+	var doc []byte
+	typ := "nil"  // reference type of f
+	byteLen := -1 // reference size of f's serialised value (strings: unquoted content)
+	arrLen := -1
+	intOK := false
+	intVal := 0
+	switch shape {
+	case 0:
+		doc = []byte(`{"g":1}`)
+	case 1, 2: // string / number of symbolic characters
+		k := vf.Choose("len", vf.Param("SL", 3)+1)
+		if shape == 2 && k == 0 {
+			return
+		}
+		s := vf.Bytes("chars", k)
+		for _, c := range s {
+			if shape == 1 {
+				vf.Assume(vf.Or(vf.And(c >= '0', c <= '9'), vf.Or(c == '-', c == 'a')))
+			}
+		}
+		// reference integer reading: -?[0-9]+ without superfluous leading zero
+		neg := k > 0 && s[0] == '-'
+		digs := s
+		if neg {
+			digs = s[1:]
+		}
+		valid := len(digs) > 0
+		for _, c := range digs {
+			if c < '0' || c > '9' {
+				valid = false
+			}
+		}
+		if valid && len(digs) > 1 && digs[0] == '0' {
+			return // "007": outside the claim
+		}
+		if valid && neg && digs[0] == '0' {
+			return // "-0": outside the claim
+		}
+		if shape == 2 && !valid {
+			return // not a JSON number
+		}
+		if valid {
+			for _, c := range digs {
+				intVal = intVal*10 + int(c-'0')
+			}
+			if neg {
+				intVal = -intVal
+			}
+			intOK = true
+		}
+		if shape == 1 {
+			typ = "string"
+			doc = append(append([]byte(`{"f":"`), s...), `"}`...)
+		} else {
+			typ = "number"
+			doc = append(append([]byte(`{"f":`), s...), `}`...)
+		}
+		byteLen = k
+	case 3:
+		n := vf.Choose("elems", 4)
+		doc = []byte(`{"f":[`)
+		byteLen = 2
+		for i := 0; i < n; i++ {
+			if i > 0 {
+				doc = append(doc, ',')
+				byteLen++
+			}
+			if vf.Choose("elem", 2) == 0 {
+				doc = append(doc, `12`...)
+				byteLen += 2
+			} else {
+				doc = append(doc, `"ab"`...)
+				byteLen += 4
+			}
+		}
+		doc = append(doc, `]}`...)
+		typ, arrLen = "array", n
+	case 4:
+		objs := []string{`{}`, `{"k":"v"}`, `{"k":"v","n":[1]}`, `{"k":{}}`}
+		o := objs[vf.Choose("object", len(objs))]
+		doc = []byte(`{"f":` + o + `}`)
+		typ, byteLen = "object", len(o)
+	case 5:
+		doc = []byte(`{"f":null}`)
+		typ, byteLen = "null", 4
+	case 6:
+		doc = []byte(`{"f":true}`)
+		typ, byteLen = "bool", 4
+	}
+	if err := root.DecodeBytes(doc); err != nil {
+		vf.Fail("document-decodes")
+		return
+	}
+	data := NewEventData(root)
+
+	if vf.Choose("family", 2) == 0 {
+		ops := []string{"byte_len_cmp", "array_len_cmp", "int_val_cmp"}
+		cmps := []string{"lt", "le", "gt", "ge", "eq", "ne"}
+		oi, ci := vf.Choose("op", 3), vf.Choose("cmp", 6)
+		cmpValue := vf.Int("cmp-value", 0, 1200) // negative values are rejected by the constructor
+		node, err := NewLenCmpOpNode(ops[oi], "f", cmps[ci], cmpValue)
+		if err != nil {
+			vf.Fail("constructor-rejects-valid-rule")
+			return
+		}
+		got := node.Check(data)
+		have, lhs := false, 0
+		switch oi {
+		case 0:
+			have, lhs = byteLen >= 0, byteLen
+		case 1:
+			have, lhs = arrLen >= 0, arrLen
+		case 2:
+			have, lhs = intOK, intVal
+		}
+		want := false
+		if have {
+			switch ci {
+			case 0:
+				want = lhs < cmpValue
+			case 1:
+				want = lhs <= cmpValue
+			case 2:
+				want = lhs > cmpValue
+			case 3:
+				want = lhs >= cmpValue
+			case 4:
+				want = lhs == cmpValue
+			case 5:
+				want = lhs != cmpValue
+			}
+		}
+		if vf.Param("twin", 0) == 1 {
+			vf.Assert(got != want, "len-cmp-semantics")
+			return
+		}
+		vf.Assert(got == want, "len-cmp-semantics")
+		if got {
+			vf.Reach("len-matched")
+		}
+		return
+	}
+	// check_type with 1..2 type names (aliases included)
+	names := []string{"obj", "object", "arr", "array", "num", "number", "str", "string", "null", "nil"}
+	canon := []string{"object", "object", "array", "array", "number", "number", "string", "string", "null", "nil"}
+	nv := 1 + vf.Choose("ntypes", 2)
+	var values [][]byte
+	want := false
+	for i := 0; i < nv; i++ {
+		t := vf.Choose("type", len(names))
+		values = append(values, []byte(names[t]))
+		if canon[t] == typ {
+			want = true
+		}
+	}
+	node, err := NewCheckTypeOpNode("f", values)
+	if err != nil {
+		vf.Fail("constructor-rejects-valid-rule")
+		return
+	}
+	got := node.Check(data)
+	if vf.Param("twin", 0) == 1 {
+		vf.Assert(got != want, "check-type-semantics")
+		return
+	}
+	vf.Assert(got == want, "check-type-semantics")
+	if got {
+		vf.Reach("type-matched")
+	}
+}
+
+// C14.H5: the tree built from a rule description (NewFromMap) is the tree the description denotes:
+// compared by the package's own structural equality with a tree built by direct constructor calls.
+func VerifH_C14_ctor() {
+	var gen func(depth int) (map[string]any, Node)
+	gen = func(depth int) (map[string]any, Node) {
+		n := 3
+		if depth > 0 {
+			n = 6
+		}
+		switch vf.Choose("kind", n) {
+		case 0: // field op
+			ops := []string{"equal", "contains", "prefix", "suffix"}
+			op := ops[vf.Choose("fop", len(ops))]
+			m := map[string]any{"op": op, "field": "a.b"}
+			cs := true
+			switch vf.Choose("case", 3) {
+			case 1:
+				m["case_sensitive"], cs = true, true
+			case 2:
+				m["case_sensitive"], cs = false, false
+			}
+			var vals [][]byte
+			switch vf.Choose("vals", 4) {
+			case 0:
+				m["values"], vals = nil, [][]byte{nil}
+			case 1:
+				m["values"], vals = "x1", [][]byte{[]byte("x1")}
+			case 2:
+				m["values"], vals = []any{"x1", nil, "Yy"}, [][]byte{[]byte("x1"), nil, []byte("Yy")}
+			case 3:
+				m["values"], vals = []any{"Yy"}, [][]byte{[]byte("Yy")}
+			}
+			d, err := NewFieldOpNode(op, "a.b", cs, vals)
+			if err != nil {
+				vf.Fail("direct-constructor")
+			}
+			return m, d
+		case 1: // length / int comparison
+			ops := []string{"byte_len_cmp", "array_len_cmp", "int_val_cmp"}
+			cmps := []string{"lt", "le", "gt", "ge", "eq", "ne"}
+			op, cmp := ops[vf.Choose("lop", 3)], cmps[vf.Choose("cmp", 6)]
+			v := vf.Choose("value", 3) * 7
+			m := map[string]any{"op": op, "field": "f", "cmp_op": cmp}
+			if vf.Choose("value-type", 2) == 0 {
+				m["value"] = v
+			} else {
+				m["value"] = float64(v)
+			}
+			d, err := NewLenCmpOpNode(op, "f", cmp, v)
+			if err != nil {
+				vf.Fail("direct-constructor")
+			}
+			return m, d
+		case 2: // check_type
+			sets := [][]string{{"obj"}, {"arr", "number"}, {"str", "null", "nil"}}
+			set := sets[vf.Choose("types", len(sets))]
+			var anyVals []any
+			var vals [][]byte
+			for _, s := range set {
+				anyVals = append(anyVals, s)
+				vals = append(vals, []byte(s))
+			}
+			m := map[string]any{"op": "check_type", "field": "f", "values": anyVals}
+			d, err := NewCheckTypeOpNode("f", vals)
+			if err != nil {
+				vf.Fail("direct-constructor")
+			}
+			return m, d
+		case 5:
+			cm, cd := gen(depth - 1)
+			d, err := NewLogicalNode("not", []Node{cd})
+			if err != nil {
+				vf.Fail("direct-constructor")
+			}
+			return map[string]any{"op": "not", "operands": []any{cm}}, d
+		default:
+			name := []string{"and", "or"}[vf.Choose("logical", 2)]
+			k := 1 + vf.Choose("operands", vf.Param("O", 2))
+			var ms []any
+			var ds []Node
+			for i := 0; i < k; i++ {
+				cm, cd := gen(depth - 1)
+				ms, ds = append(ms, cm), append(ds, cd)
+			}
+			d, err := NewLogicalNode(name, ds)
+			if err != nil {
+				vf.Fail("direct-constructor")
+			}
+			return map[string]any{"op": name, "operands": ms}, d
+		}
+	}
+	m, direct := gen(vf.Param("D", 1))
+	c, err := NewFromMap(m)
+	if err != nil {
+		vf.Fail("constructor-rejects-valid-rule")
+		return
+	}
+	same := c.IsEqualTo(newChecker(direct)) == nil
+	if vf.Param("twin", 0) == 1 {
+		vf.Assert(!same, "rule-tree-is-the-described-tree")
+		return
+	}
+	vf.Assert(same, "rule-tree-is-the-described-tree")
+	vf.Reach("built")
 }
